@@ -10,9 +10,11 @@ JO = "nifty.cl.operators.jax_operator"
 OPM = "nifty.cl.operators.operator"
 
 
-def _metric_free_ok(atoms, xn):
+def _metric_free_ok(atoms, xn, resolve=None):
     """The return is only reached when no metric was requested (or the input is not a linearization)."""
     for t, pol in atoms:
+        if resolve is not None and isinstance(t, ast.Name):
+            t = resolve(t)
         s = src(t)
         if s == f"{xn}.want_metric" and pol is False:
             return True
@@ -61,7 +63,7 @@ def run(ctx):
                 arg = v.args[0]
                 none = isinstance(arg, ast.Constant) and arg.value is None
                 ctx.check("R11.1", key, not none, "add_metric(None)", ap, r.ast)
-            elif _metric_free_ok(at, xn):
+            elif _metric_free_ok(at, xn, lambda nm, _r=r: inline_at(cfg, rd, _r.id, nm, depth=1)):
                 ctx.ok("R11.1", key, "only reached when no metric is requested", ap, r.ast)
             else:
                 # value may be a local that already carries the metric
